@@ -345,5 +345,5 @@ def main (args : List String) : IO Unit := do
   let stateMax : Nat := match args.find? (·.startsWith "statemax=") with
     | some a => ((a.drop 9).toString.toNat?).getD 0
     | none => 1000000000
-  let t : Toggles := { tape := tape, f1 := args.contains "f1", f2 := !args.contains "nof2", f3 := args.contains "f3", f14 := !args.contains "nof14", f1p := !args.contains "nof1p", f1q := !args.contains "nof1q", f1r := !args.contains "nof1r", f13 := !args.contains "nof13", f16 := !args.contains "nof16", f33 := !args.contains "nof33", f31 := args.contains "f31", f32 := args.contains "f32", f34 := args.contains "f34", f35 := args.contains "f35", f36 := args.contains "f36", desc := args.contains "desc" }
+  let t : Toggles := { tape := tape, f1 := args.contains "f1", f2 := !args.contains "nof2", f3 := args.contains "f3", f14 := !args.contains "nof14", f1p := !args.contains "nof1p", f1q := !args.contains "nof1q", f1r := !args.contains "nof1r", f13 := !args.contains "nof13", f16 := !args.contains "nof16", f33 := !args.contains "nof33", f31 := args.contains "f31", f32 := args.contains "f32", f34 := !args.contains "nof34", f35 := !args.contains "nof35", f36 := !args.contains "nof36", desc := args.contains "desc" }
   loop (← IO.getStdin) (← IO.getStdout) (args.contains "core" || args.contains "corefull") (args.contains "corefull") (args.contains "cyc") (args.contains "msg") (args.contains "state") stateMax 0 t {}
